@@ -3,6 +3,7 @@
 package codech26x
 
 import (
+	"strings"
 	"errors"
 	"fmt"
 	"math/rand/v2"
@@ -137,6 +138,12 @@ func lagShape(clause, detail string) string {
 	}
 	first, _ := strconv.Atoi(m[1])
 	hits, _ := strconv.Atoi(m[3])
+	// the known defect DELAYS frames by one access unit: the frame still comes back, intact, when the
+	// next intact access unit ends.  A frame that is never returned although an intact frame follows it
+	// is a different failure (seeded change C07-r6-1 was masked by the coarser shape).
+	if strings.Contains(detail, "returned later: never") && strings.Contains(detail, "next frame intact: true") {
+		return ""
+	}
 	if hits == 0 && first < len(lastLog.stale) && lastLog.stale[first] {
 		return "resync-lag"
 	}
